@@ -2,7 +2,7 @@ package main
 
 import "encoding/json"
 
-const c08Rule = "fault enumeration: seeded documents (1..3 conjunctions over a default, a pattern and a range field, incl. all-negative and empty conjunctions) x every expression position replaced by an unparseable value of that container's kind (default: bool / map / nested list / nil / lists with one unparseable element in last, first or middle position; pattern: integer / list with a non-string; range: non-numeric string, typed and untyped lists with one non-numeric element, ill-typed or reversed between pair, malformed description, unknown operator) x {include, exclude} x {skip, error, panic(recovered)} x {k-groups, compact}, followed by queries that would match the bad conjunction had it left a trace (empty assignment, an assignment hitting its includes and avoiding its excludes) and by ordinary queries; plus documents rejected outright (no conjunction, 256 conjunctions, id out of range). Posting-list contents are compared through the hook. number-range descriptions that only start like a range (trailing text, dangling separator, padded number) as default-holder values and as string between operands; Non-trivial = the faulty document has another conjunction or a neighbour that some query matches; distinct = distinct input"
+const c08Rule = "fault enumeration: seeded documents (1..3 conjunctions over a default, a pattern and a range field, incl. all-negative and empty conjunctions) x every expression position replaced by an unparseable value of that container's kind (default: bool / map / nested list / nil / lists with one unparseable element in last, first or middle position; pattern: integer / list with a non-string; range: non-numeric string, typed and untyped lists with one non-numeric element, ill-typed or reversed between pair, malformed description, unknown operator) x {include, exclude} x {skip, error, panic(recovered)} x {k-groups, compact}, followed by queries that would match the bad conjunction had it left a trace (empty assignment, an assignment hitting its includes and avoiding its excludes) and by ordinary queries; plus documents rejected outright (no conjunction, 256 conjunctions, id out of range). Posting-list contents are compared through the hook. number-range descriptions that only start like a range (trailing text, dangling separator, padded number) as default-holder values and as string between operands; the range container's operand decoding with EnableFloat2Int=false (float operands of > and < must be refused); Non-trivial = the faulty document has another conjunction or a neighbour that some query matches; distinct = distinct input"
 
 func badValues(cont string) []TV {
 	switch cont {
@@ -22,7 +22,7 @@ func badValues(cont string) []TV {
 func init() {
 	props["C08"] = &propDef{
 		header:    "From BE Require Import Corr.CheckC08.",
-		headers:   map[string]string{"C": "From BE Require Import Corr.CheckCache."},
+		headers:   map[string]string{"C": "From BE Require Import Corr.CheckCache.", "P": "From BE Require Import Corr.CheckParse."},
 		rule:      c08Rule,
 		shardSize: 60,
 		gen: func(tier string, r *Rand, add func(in interface{})) {
@@ -164,6 +164,15 @@ func init() {
 					add(c)
 				}
 			}
+			// a range holder configured with EnableFloat2Int = false (RangeHolderOption, registered through
+			// RegisterEntriesHolder) must REFUSE a float operand of > and < (which makes the conjunction a bad one):
+			// the operand decoding it calls, on floats, float texts, integers and between pairs
+			for _, op := range []int{1, 2, 3} {
+				for _, v := range []TV{tvFloat("float64", 18), tvFloat("float64", 18.5), tvFloat("float64", -2.5), tvFloat("float32", 7), tvFloat("float64", 0), tvStr("18.5"), tvStr("18"), tvJSON("18.0"), tvJSON("18"),
+					tvInt("int", 18), tvInt("int64", -3), tvUint("uint8", 200), tvList(tvFloat("float64", 1), tvFloat("float64", 5)), tvSlice("[]int64", tvInt("int64", 1), tvInt("int64", 5)), tvSlice("[]float64", tvFloat("float64", 1)), tvBool(true), tvNil()} {
+					add(pIn{K: "rangenf", Op: op, V: v})
+				}
+			}
 			// builds with a cache provider: under Skip / Error / Panic an unparseable conjunction next to conjunctions
 			// that the warm builds serve from the cache (before them, between them, after them)
 			for _, pol := range []string{"skip", "error", "panic"} {
@@ -209,11 +218,15 @@ func init() {
 		},
 		exec: func(raw json.RawMessage) (execResult, error) {
 			var probe struct {
-				Cache bool `json:"cache"`
+				Cache bool   `json:"cache"`
+				K     string `json:"k"`
 			}
 			json.Unmarshal(raw, &probe)
 			if probe.Cache {
 				return execCache(raw)
+			}
+			if probe.K != "" {
+				return execParse(raw)
 			}
 			return execE2E(raw)
 		},
